@@ -9,27 +9,27 @@ template <class K, class M, class Eq, class Less, bool Ord> class mapimpl {
   typedef pair<const K, M> V; list<K, V, key_first<K, M>, Eq, Less, Ord> l_;
  public: typedef K key_type; typedef M mapped_type; typedef V value_type; typedef typename decltype(l_)::iterator iterator; typedef typename decltype(l_)::const_iterator const_iterator; typedef size_t size_type;
   mapimpl() {} mapimpl(initializer_list<V> il) { for (const V& v : il) l_.emplace(v); } template <class It> mapimpl(It b, It e) { for (; b != e; ++b) l_.emplace(*b); }
-  iterator begin() noexcept { return iterator(l_.h_); } iterator end() noexcept { return iterator(); } const_iterator begin() const noexcept { return const_iterator(l_.h_); } const_iterator end() const noexcept { return const_iterator(); } const_iterator cbegin() const noexcept { return begin(); } const_iterator cend() const noexcept { return end(); }
+  iterator begin() noexcept { return iterator(l_.h_, l_.n_); } iterator end() noexcept { return iterator(); } const_iterator begin() const noexcept { return const_iterator(l_.h_, l_.n_); } const_iterator end() const noexcept { return const_iterator(); } const_iterator cbegin() const noexcept { return begin(); } const_iterator cend() const noexcept { return end(); }
   size_t size() const noexcept { return l_.n_; } bool empty() const noexcept { return l_.n_ == 0; } void clear() noexcept { l_.clear(); } void reserve(size_t) {}
-  iterator find(const K& k) { return iterator(l_.find_node(k)); } const_iterator find(const K& k) const { return const_iterator(l_.find_node(k)); }
+  iterator find(const K& k) { return l_.find_it(k); } const_iterator find(const K& k) const { return const_iterator(l_.find_it(k)); }
   size_t count(const K& k) const { return l_.find_node(k) ? 1 : 0; } bool contains(const K& k) const { return l_.find_node(k) != nullptr; }
   M& operator[](const K& k) { if (auto* p = l_.find_node(k)) return p->v.second; return l_.emplace(piecewise_construct, k).first->second; }
   M& at(const K& k) { auto* p = l_.find_node(k); if (!p) throw out_of_range("map::at"); return p->v.second; } const M& at(const K& k) const { auto* p = l_.find_node(k); if (!p) throw out_of_range("map::at"); return p->v.second; }
   template <class... A> pair<iterator, bool> emplace(A&&... a) { return l_.emplace(std::forward<A>(a)...); } template <class... A> iterator emplace_hint(const_iterator, A&&... a) { return l_.emplace(std::forward<A>(a)...).first; }
-  template <class... A> pair<iterator, bool> try_emplace(const K& k, A&&... a) { if (auto* p = l_.find_node(k)) return pair<iterator, bool>(iterator(p), false); return l_.emplace(piecewise_construct, k, std::forward<A>(a)...); }
+  template <class... A> pair<iterator, bool> try_emplace(const K& k, A&&... a) { size_t r_ = 0; if (auto* p = l_.find_node(k, &r_)) return pair<iterator, bool>(iterator(p, r_), false); return l_.emplace(piecewise_construct, k, std::forward<A>(a)...); }
   pair<iterator, bool> insert(const V& v) { return l_.emplace(v); } pair<iterator, bool> insert(V&& v) { return l_.emplace(std::move(v)); } template <class It> void insert(It b, It e) { for (; b != e; ++b) l_.emplace(*b); }
-  template <class O> pair<iterator, bool> insert_or_assign(const K& k, O&& o) { if (auto* p = l_.find_node(k)) { p->v.second = std::forward<O>(o); return pair<iterator, bool>(iterator(p), false); } return l_.emplace(k, std::forward<O>(o)); }
+  template <class O> pair<iterator, bool> insert_or_assign(const K& k, O&& o) { size_t r_ = 0; if (auto* p = l_.find_node(k, &r_)) { p->v.second = std::forward<O>(o); return pair<iterator, bool>(iterator(p, r_), false); } return l_.emplace(k, std::forward<O>(o)); }
   iterator erase(const_iterator it) { return l_.erase_node(it.n); } iterator erase(iterator it) { return l_.erase_node(it.n); } size_t erase(const K& k) { return l_.erase_key(k); }
-  iterator erase(const_iterator b, const_iterator e) { node<V>* p = b.n; while (p != e.n) { p = l_.erase_node(p).n; } return iterator(p); }
+  iterator erase(const_iterator b, const_iterator e) { iterator it(b.n, b.rem); while (it.rem != e.rem) { it = l_.erase_node(it.n); } return it; }
   friend bool operator==(const mapimpl& a, const mapimpl& b) { if (a.size() != b.size()) return false; for (const auto& kv : a) { auto it = b.find(kv.first); if (it == b.end() || !(it->second == kv.second)) return false; } return true; }
 };
 template <class K, class Eq, class Less, bool Ord> class setimpl {
   list<K, K, key_self<K>, Eq, Less, Ord> l_;
  public: typedef K key_type; typedef K value_type; typedef typename decltype(l_)::const_iterator iterator; typedef iterator const_iterator; typedef size_t size_type;
   setimpl() {} setimpl(initializer_list<K> il) { for (const K& v : il) l_.emplace(v); } template <class It> setimpl(It b, It e) { for (; b != e; ++b) l_.emplace(*b); }
-  iterator begin() const noexcept { return iterator(l_.h_); } iterator end() const noexcept { return iterator(); } iterator cbegin() const noexcept { return begin(); } iterator cend() const noexcept { return end(); }
+  iterator begin() const noexcept { return iterator(l_.h_, l_.n_); } iterator end() const noexcept { return iterator(); } iterator cbegin() const noexcept { return begin(); } iterator cend() const noexcept { return end(); }
   size_t size() const noexcept { return l_.n_; } bool empty() const noexcept { return l_.n_ == 0; } void clear() noexcept { l_.clear(); } void reserve(size_t) {}
-  iterator find(const K& k) const { return iterator(l_.find_node(k)); } size_t count(const K& k) const { return l_.find_node(k) ? 1 : 0; } bool contains(const K& k) const { return l_.find_node(k) != nullptr; }
+  iterator find(const K& k) const { return iterator(l_.find_it(k)); } size_t count(const K& k) const { return l_.find_node(k) ? 1 : 0; } bool contains(const K& k) const { return l_.find_node(k) != nullptr; }
   template <class... A> pair<iterator, bool> emplace(A&&... a) { auto r = l_.emplace(std::forward<A>(a)...); return pair<iterator, bool>(iterator(r.first), r.second); }
   pair<iterator, bool> insert(const K& v) { return emplace(v); } pair<iterator, bool> insert(K&& v) { return emplace(std::move(v)); } template <class It> void insert(It b, It e) { for (; b != e; ++b) l_.emplace(*b); }
   iterator erase(iterator it) { return iterator(l_.erase_node(it.n)); } size_t erase(const K& k) { return l_.erase_key(k); }
